@@ -25,6 +25,7 @@ type replayFamily struct {
 var replayFamilies = map[string]replayFamily{
 	"escape": {"twig/escape", "escape_test.go", "TestStickvcReplayEscape"},
 	"parse":  {"parse", "parse_test.go", "TestStickvcReplayParse"},
+	"value":  {".", "value_test.go", "TestStickvcReplayValue"},
 }
 
 type ReplayFile struct {
@@ -108,8 +109,8 @@ func writeReplay(e *Engine, pc *PropConfig, o *Obligation, header *Universe, dir
 			rf.Env["STICKVC_INPUTS"] = string(wb)
 		}
 		ck := pc.Replay + "|" + rf.Env["STICKVC_CANDIDATES"]
-		if pc.Replay == "parse" {
-			ck = pc.Replay // the enumeration dominates; one run per check
+		if pc.Replay != "escape" {
+			ck = pc.Replay // one run per check
 		}
 		cached, have := harnessCache[ck]
 		if !have {
